@@ -33,6 +33,9 @@ def run(prog, chk):
     no_duplicate_attrs(prog, chk)
     root_synthesis(prog, chk)
     eof_open_elements(prog, chk)
+    other_is_whole_input_event(prog, chk)
+    from props import C03
+    C03.top_level_predicate(prog, chk)
     from props import C01
     C01.utf8_boundary(prog, chk)  # output is UTF-8 because every input event was validated (pass-through carries bytes along)
 
@@ -253,3 +256,19 @@ def eof_open_elements(prog, chk):
         "from_reader rejects input that ends while elements are still open",
         "input that ends inside open elements (`<svg><g><rect/>`) is accepted: quick-xml reports mismatched end tags but not tags still open at EOF, and the output then lacks the end tags too (ill-formed). The repository's own tests rely on this leniency (clippath tests use unclosed `<rect ...>`), so it cannot be repaired without editing them",
     )
+
+
+def other_is_whole_input_event(prog, chk):
+    """OutputEvent::Other (written to the output as it is, with no escaping) only ever carries the input event it was
+    read as - never an event re-built from (possibly unescaped or unvalidated) parts"""
+    b = prog.body("<svgdx::events::OutputEvent as std::convert::From<svgdx::events::InputEvent>>::from")
+    chk.touch(b)
+    n = 0
+    for x, i, st in b.all_stmts():
+        rv = st.get("rv")
+        if rv and rv.get("k") == "aggr" and rv.get("adt") == "svgdx::events::OutputEvent" and rv.get("variant") == "Other":
+            n += 1
+            o = R.origin(b, rv["ops"][0], carriers={})
+            ok = o[0] == "field" and o[1][1] and o[1][1][-1] == ".event"
+            chk.ob(ok, "A11.other-passthrough", f"From<InputEvent>:Other#{n}", b.where(x, st.get("line")), "Other carries the input's own event (moved out of `value.event`)", "an OutputEvent::Other is built from a re-constructed event: character data can reach the writer without the escape that Text/CData/Comment events get (ill-formed or altered output)")
+    chk.floor("A11.other-passthrough", n, 3, "OutputEvent::Other construction in From<InputEvent>")
